@@ -180,8 +180,11 @@ def param_loop(I, st, env, s, it, frame):
     """one abstract iteration per parameter letter the body distinguishes (plus a generic other letter);
     every letter is absent / present without value / present with a value.  Iterations whose body only
     assigns locals are merged into lazily decided Choice values instead of forking the path."""
+    # letters the loop can distinguish: those named in its body and - because the body may be table driven (dict lookups,
+    # getattr with a computed name, helper calls) - every parameter letter named anywhere in the module
+    alphabet = sorted(set(_alphabet(s.body)) | set(_module_letters(I, frame.mod)))
     letters = []
-    for L in _alphabet(s.body) + ['?']:
+    for L in alphabet + ['?']:
         letters.append(L)
         if L in getattr(I, 'param_dups', ()):
             letters.append(L + '#2')        # a second occurrence of the same word, later in the command
@@ -210,11 +213,51 @@ def _param_iteration(I, st, env, s, it, L, frame):
     e0 = dict(env)
     results = _body(I, s0, e0, s, elem, frame)
     pure = True
+    map_changes = {}        # oid -> set of item indexes whose value differs in some result (same keys, same order)
     for (s2, e2, oc) in results:
-        if oc is not None or len(s2.trace) != len(st.trace) or s2.heap != st.heap or s2.seqs != st.seqs \
-                or s2.maps != st.maps or s2.flags != st.flags:
+        extra = [ev for ev in s2.trace[len(st.trace):] if ev[0] not in ('map-replace', 'call')]
+        if oc is not None or extra or s2.heap != st.heap or s2.seqs != st.seqs or s2.flags != st.flags:
             pure = False
             break
+        if s2.maps != st.maps:
+            for oid, items in s2.maps.items():
+                old = st.maps.get(oid)
+                if old is items or old == items:
+                    continue
+                if old is None and oid.startswith('const:'):
+                    st.maps[oid] = items        # read-only module table, built on first use
+                    st.cls[oid] = 'dict'
+                    continue
+                if old is None or len(old) != len(items):
+                    pure = False
+                    break
+                for ix, (a, b) in enumerate(zip(old, items)):
+                    if a == b:
+                        continue
+                    from .merge import is_data
+                    if a[0] != 'kv' or b[0] != 'kv' or vkey(a[1]) != vkey(b[1]) or not is_data(a[2]) or not is_data(b[2]):
+                        pure = False
+                        break
+                    map_changes.setdefault(oid, set()).add(ix)
+                if not pure:
+                    break
+            if not pure:
+                break
+    if pure and map_changes:
+        # a table-driven word loop: the value stored under an existing key becomes a lazily decided value
+        for oid, ixs in map_changes.items():
+            items = list(st.maps[oid])
+            for ix in ixs:
+                alts = []
+                for (s2, e2, oc) in results:
+                    delta = {k: v for k, v in s2.dom.items() if st.dom.get(k) != v and k[0] != 'sgn'}
+                    delta[key] = s2.dom.get(key, present)
+                    alts.append((delta, s2.maps[oid][ix][2]))
+                if 'A' in cur:
+                    alts.append(({key: frozenset(['A'])}, items[ix][2]))
+                merged = _merge_alts(alts)
+                items[ix] = ('kv', items[ix][1], merged[0][1] if len(merged) == 1 and not merged[0][0] else Choice(merged))
+            st.maps[oid] = tuple(items)
     if pure:
         changed = set()
         for (s2, e2, oc) in results:
@@ -419,6 +462,10 @@ def _append_only_summary(I, st, env, s, star, frame):
     target = None
     suffixes = []
     for (s2, e2, oc) in results:
+        for oid, items in s2.maps.items():
+            if oid.startswith('const:') and oid not in st.maps:
+                st.maps[oid] = items
+                st.cls[oid] = 'dict'
         if oc is not None or s2.flags != st.flags or s2.maps != st.maps:
             return None
         for ev in s2.trace[nbase:]:
